@@ -23,6 +23,10 @@ Rules on the -O1 -fno-inline IR (every CNL function still a function):
  R7 (the rescaling mechanism produces a result at all) every cycle of every loop of every cnl::_impl::descale
     instantiation the entry points reach makes progress (vlib/idle.py): a cycle that neither stores nor changes a
     loop-carried value is taken forever once it is taken twice.  Necessary for termination, not sufficient.
+ R8 (exactness clause, structural part) descale scales the significand up by the output radix while "there is room"
+    (its local predicate oob); a room test that is the constant true for some significand type means the significand
+    is never scaled up and every fractional digit is dropped (constant false: it overflows).  No oob predicate of any
+    descale instantiation reached may be a constant function.
 Not decided: digit generation, truncation direction, exponent after rescaling (loops over run-time digits).
 """
 import re, os
@@ -236,6 +240,24 @@ def run(tier, seed, work):
                 for header, blocks in cyc:
                     r.violation("R7/" + dem7[x][:100], "%s: the loop at block %s has a cycle (%s) that stores nothing and changes no loop-carried value: once taken twice it is taken forever (to_chars does not return)" % (dem7[x][:160], header, " -> ".join(blocks)),
                                 {"function": dem7[x], "cycle": blocks, "ir": mod7.functions[x].text()}, finding_key="R7/idle-cycle/descale")
+    # R8: the room tests of descale (its local lambdas, still functions at -O1 -fno-inline) are not constant functions
+    # (the -O0-derived module keeps every body unoptimised; constancy is judged on the -O1 module)
+    n_r8 = 0
+    for n, f in mod.functions.items():
+        d = dem.get(n, "")
+        if not (d.startswith("auto cnl::_impl::descale<") and "lambda" in d and "operator()" in d):
+            continue
+        lines_ = [l for lab in f.order for l in f.blocks[lab] if "llvm.dbg" not in l and "lifetime" not in l]
+        rets = [l for l in lines_ if re.match(r"^ret i1 ", l)]
+        if not rets:
+            continue
+        n_r8 += 1
+        const_rets = [l for l in rets if re.match(r"^ret i1 (true|false)$", l.split(",")[0].strip())]
+        has_calls = any(re.search(r"\b(call|invoke)\b", l) and "llvm.dbg" not in l for l in lines_)
+        if len(const_rets) == len(rets) and not has_calls and len(set(const_rets)) == 1:
+            r.violation("R8/" + d[:110], "%s: the room test is the constant `%s`: %s" % (d[:200], const_rets[0],
+                        "the significand is never scaled up, every digit after the radix point is dropped" if "true" in const_rets[0] else "the significand is scaled up without limit"),
+                        {"function": d, "ir": f.text()})
     entries = [n for n in mod.functions if n.startswith("e_")]
     ok_entries, samples = 0, []
     for e in sorted(entries):
@@ -314,11 +336,12 @@ def run(tier, seed, work):
     common.floor_check(r, "R6 digit-generator instances inspected", n_r6, len(R6_REPS))
     common.floor_check(r, "R7 descale instantiations inspected", n_r7, 20)
     common.floor_check(r, "R7 loops inspected", n_r7_loops, 20)
+    common.floor_check(r, "R8 room tests inspected", n_r8, 20)
     r.coverage = {
         "explanation": "Decided: the last sentence (the fixed-capacity entry points format through cnl::to_chars on the same value: reachability, forbidden-formatter and argument/derivation rules on -O1 -fno-inline IR) and one structural necessary condition of the sign/magnitude clause (R5: the working significand type of every to_chars<Rep> instantiation represents all of Rep). Digit generation, truncation direction and exponents are not decided.",
         "evaluations": len(entries) + n_static + n_r5 + n_r6, "distinct_nontrivial": ok_entries + n_static + n_r5 + n_r6,
         "rule": "non-trivial = entry point for which R1 and R2 hold, or to_chars_static instantiation for which R3 was evaluated",
-        "r5_instances": n_r5, "r6_generators": n_r6, "r7_descale_instances": n_r7, "r7_loops": n_r7_loops, "entry_points": len(entries) - 1, "entry_points_ok": ok_entries, "to_chars_static_instances": n_static,
+        "r5_instances": n_r5, "r6_generators": n_r6, "r7_descale_instances": n_r7, "r8_room_tests": n_r8, "r7_loops": n_r7_loops, "entry_points": len(entries) - 1, "entry_points_ok": ok_entries, "to_chars_static_instances": n_static,
         "samples": samples[:6], "exhaustive": False,
     }
     return r.finish()
